@@ -26,7 +26,32 @@ CONTEXTS = [
     {"name": "default namespace", "xml": '<e xmlns="urn:u" a="1" b="2"/>', "node_ns": "urn:u", "default_ns": "urn:u"},
     {"name": "foreign attributes", "xml": '<e xmlns:q="urn:q" q:a="1" a="3" q:b="2"/>', "node_ns": "", "default_ns": ""},
     {"name": "undeclared default", "xml": '<r xmlns="urn:u"><e xmlns="" a="1"/></r>', "node_ns": "", "default_ns": "", "child": True},
+    # created through the API and detached nodes
+    {"name": "created plain", "how": "created", "attrs": [["", "a", "1"], ["", "b", "2"]], "ns": None, "node_ns": "", "default_ns": ""},
+    {"name": "created namespaced", "how": "created", "attrs": [["urn:u", "a", "1"], ["urn:q", "b", "2"]], "ns": "urn:u",
+     "node_ns": "urn:u", "default_ns": ""},
+    {"name": "detached prefixed", "xml": '<r xmlns:p="urn:u"><p:e a="1" p:b="2"/></r>', "node_ns": "urn:u", "default_ns": "",
+     "child": True, "detach": True},
+    {"name": "detached default namespace", "xml": '<r xmlns="urn:u"><e a="1" b="2"/></r>', "node_ns": "urn:u", "default_ns": "urn:u",
+     "child": True, "detach": True},
 ]
+
+
+def make_node(ctx):
+    """the element of a context; returns (keep-alive, node)"""
+    from delb import Document, new_tag_node
+
+    if ctx.get("how") == "created":
+        node = new_tag_node("e", {(a[0], a[1]) if a[0] else a[1]: a[2] for a in ctx["attrs"]}, namespace=ctx["ns"])
+        keep = node
+    else:
+        keep = Document(ctx["xml"])
+        node = keep.root[0] if ctx.get("child") else keep.root
+        if ctx.get("detach"):
+            node = node.detach()
+    if node.namespace != ctx["node_ns"] or (node._etree_obj.nsmap.get(None) or "") != ctx["default_ns"]:
+        raise common.ToolFailure(f"context {ctx['name']} is not what its description says")
+    return keep, node
 NAMES = ["a", "b", "c"]
 NSS = ["", "urn:u", "urn:q"]
 
@@ -93,10 +118,7 @@ def resolve(ctx, acc):
 
 def run_impl(ctx, ops):
     """returns per-op results (canonical JSON), the ops with view indexes resolved, and property problems"""
-    from delb import Document
-
-    d = Document(ctx["xml"])
-    node = d.root[0] if ctx.get("child") else d.root
+    d, node = make_node(ctx)
     A = node.attributes
     spec = {}
     for k, v in node._etree_obj.attrib.items():
@@ -268,8 +290,7 @@ def run_cases(run: Run, cases, stream, lean_ok=True):
         from lxml import etree
         from delb import Document
 
-        d = Document(ctx["xml"])
-        node = d.root[0] if ctx.get("child") else d.root
+        d, node = make_node(ctx)
         init = []
         for k, v in node._etree_obj.attrib.items():
             q = etree.QName(k)
